@@ -70,7 +70,7 @@ type ecdheKeyAgreementGM struct {
 
 func (ka *ecdheKeyAgreementGM) generateServerKeyExchange(config *Config, signCert, cipherCert *Certificate,
 	clientHello *clientHelloMsg, hello *serverHelloMsg) (*serverKeyExchangeMsg, error) {
-	panic("")
+	return nil, errors.New("tls: server side of the GM ECDHE key agreement is not implemented")
 	//	preferredCurves := config.curvePreferences()
 	//
 	//NextCandidate:
@@ -169,7 +169,7 @@ func (ka *ecdheKeyAgreementGM) generateServerKeyExchange(config *Config, signCer
 }
 
 func (ka *ecdheKeyAgreementGM) processClientKeyExchange(config *Config, cert *Certificate, ckx *clientKeyExchangeMsg, version uint16) ([]byte, error) {
-	panic("")
+	return nil, errors.New("tls: server side of the GM ECDHE key agreement is not implemented")
 	//	if len(ckx.ciphertext) == 0 || int(ckx.ciphertext[0]) != len(ckx.ciphertext)-1 {
 	//		return nil, errClientKeyExchange
 	//	}
@@ -336,11 +336,11 @@ func (ka *eccKeyAgreementGM) generateServerKeyExchange(config *Config, signCert,
 }
 
 func (ka *eccKeyAgreementGM) processClientKeyExchange(config *Config, cert *Certificate, ckx *clientKeyExchangeMsg, version uint16) ([]byte, error) {
-	if len(ckx.ciphertext) == 0 {
+	if len(ckx.ciphertext) < 2 {
 		return nil, errClientKeyExchange
 	}
 
-	if int(ckx.ciphertext[0]<<8|ckx.ciphertext[1]) != len(ckx.ciphertext)-2 {
+	if int(ckx.ciphertext[0])<<8|int(ckx.ciphertext[1]) != len(ckx.ciphertext)-2 {
 		return nil, errClientKeyExchange
 	}
 
